@@ -76,7 +76,7 @@ _PRINT_RE = re.compile(r'^<<"([A-Z_]+)", "(.*)">>$')
 
 def _parse_tlc_output(text, res):
     tagged = {}
-    lines = text.splitlines()
+    lines = text.split("\n")
     for ln in lines:
         m = _PRINT_RE.match(ln)
         if m:
@@ -118,6 +118,25 @@ def _parse_tlc_output(text, res):
     res.error_text = "\n".join(errs[:5])
 
 
+def lib_dir(lib):
+    """lib: None, a directory name under spec/, or a list of them.  Several directories are merged into one directory of
+    symlinks under work/ (the TLA-Library property takes one usable directory here).  Returns (path or None, hash text)."""
+    if not lib:
+        return None, ""
+    libs = [lib] if isinstance(lib, str) else list(lib)
+    dirs = [os.path.join(SPEC, d) if not os.path.isabs(d) else d for d in libs]
+    h = "".join(spec_hash(d) for d in dirs)
+    if len(dirs) == 1:
+        return dirs[0], h
+    os.makedirs(WORK, exist_ok=True)
+    merged = tempfile.mkdtemp(prefix="tlalib_", dir=WORK)
+    for d in dirs:
+        for fn in os.listdir(d):
+            if fn.endswith(".tla") and not os.path.exists(os.path.join(merged, fn)):
+                os.symlink(os.path.join(d, fn), os.path.join(merged, fn))
+    return merged, h
+
+
 def spec_hash(spec_dir, extra=""):
     h = hashlib.sha256()
     for fn in sorted(os.listdir(spec_dir)):
@@ -133,9 +152,9 @@ def run_tlc(spec_dir, module, cfg, workers=8, timeout=600, simulate=None, depth=
             seed=None, keep_tags=None, deadlock=False, lib=None):
     """Run TLC on spec_dir/module.tla with spec_dir/cfg.  Returns TlcResult."""
     spec_dir = os.path.join(SPEC, spec_dir) if not os.path.isabs(spec_dir) else spec_dir
-    libdir = (os.path.join(SPEC, lib) if lib and not os.path.isabs(lib) else lib)
+    libdir, libhash = lib_dir(lib)
     if cache_key is not None:
-        key = spec_hash(spec_dir, f"{module}|{cfg}|{simulate}|{depth}|{cache_key}" + (spec_hash(libdir) if libdir else ""))
+        key = spec_hash(spec_dir, f"{module}|{cfg}|{simulate}|{depth}|{cache_key}" + libhash)
         cpath = os.path.join(CACHE, f"{module}-{cfg}-{key}.json.gz")
         if os.path.exists(cpath):
             try:
@@ -201,9 +220,9 @@ def run_tlc_stream(spec_dir, module, cfg, tag, workers=8, timeout=3000, xss="1g"
     """Like run_tlc, but the PrintT(<<tag, json>>) lines are streamed to an ndjson(.gz) file instead of being kept in memory.
     Returns (TlcResult without tagged, path of the gz file, number of lines)."""
     spec_dir = os.path.join(SPEC, spec_dir) if not os.path.isabs(spec_dir) else spec_dir
-    libdir = (os.path.join(SPEC, lib) if lib and not os.path.isabs(lib) else lib)
+    libdir, libhash = lib_dir(lib)
     os.makedirs(CACHE, exist_ok=True); os.makedirs(WORK, exist_ok=True)
-    key = spec_hash(spec_dir, f"{module}|{cfg}|{simulate}|{depth}|{seed}|{cache_key}|{tag}" + (spec_hash(libdir) if libdir else ""))
+    key = spec_hash(spec_dir, f"{module}|{cfg}|{simulate}|{depth}|{seed}|{cache_key}|{tag}" + libhash)
     base = os.path.join(CACHE if cache_key is not None else WORK, f"{module}-{cfg}-{key}")
     gz = base + ".ndjson.gz"; meta = base + ".meta.json"
     if cache_key is not None and os.path.exists(gz) and os.path.exists(meta):
@@ -274,12 +293,27 @@ def build_harness():
     return time.time() - t0
 
 
+CURRENT_CHECK = None      # the Check object of the running script (set by Check.__init__)
+
+
 def run_harness(args, stdin_text=None, timeout=3600, env=None):
-    e = dict(os.environ, RUST_BACKTRACE="1")
+    os.makedirs(WORK, exist_ok=True)
+    hang_file = os.path.join(WORK, f"hang_{os.getpid()}_{int(time.time() * 1000) % 100000000}.json")
+    e = dict(os.environ, RUST_BACKTRACE="1", OQ3V_HANG_FILE=hang_file)
     if env:
         e.update(env)
     p = subprocess.run([BIN] + [str(a) for a in args], input=stdin_text, stdout=subprocess.PIPE,
                        stderr=subprocess.PIPE, text=True, timeout=timeout, env=e, errors="replace")
+    if p.returncode == 3 and os.path.exists(hang_file):
+        # the code under test did not return on some input (the harness' watchdog stopped the run): that is an observation
+        # of the real crates, i.e. a violation of the property whose check is running, not a tool error
+        info = json.load(open(hang_file))
+        os.remove(hang_file)
+        if CURRENT_CHECK is not None:
+            CURRENT_CHECK.report({"kind": "hang", "what": f"the code under test did not return within {info.get('secs')} s (harness command {args[0]})",
+                                  "text": info.get("input", ""), "site": str(args[0])})
+            CURRENT_CHECK.finish()
+        raise ToolError(f"harness watchdog: code under test hung on {info.get('input', '')[:200]!r}")
     return p
 
 
@@ -367,6 +401,8 @@ class Check:
         if "--replay" in argv:
             self.replay_arg = argv[argv.index("--replay") + 1]
         self.t0 = time.time()
+        global CURRENT_CHECK
+        CURRENT_CHECK = self
         self.findings = Findings(prop)
         self.violations = []      # unmatched
         self.known = {}
@@ -452,4 +488,11 @@ def main_guard(fn):
         sys.exit(2)
     except subprocess.TimeoutExpired as ex:
         log("TIMEOUT:", ex)
+        sys.exit(2)
+    except SystemExit:
+        raise
+    except BaseException as ex:      # a bug in the machinery is a tool error (exit 2), never a verdict (exit 1)
+        import traceback
+        traceback.print_exc()
+        log("TOOL ERROR (internal):", repr(ex)[:300])
         sys.exit(2)
